@@ -14,7 +14,7 @@ from fp2ref import split_functions, split_args, TranslateError
 
 FUNCS = ["fp2_pow_vartime"]
 CALLS = {"fp2_mul": 2, "fp2_sqr": 1, "fp2_copy": 1, "fp2_set_one": 0}   # number of inputs after the destination
-FOR = re.compile(r"for\s*\(\s*int\s+(\w+)\s*=\s*0\s*;\s*(\w+)\s*<\s*(\w+)\s*;\s*(\w+)\+\+\s*\)\s*\{")
+FOR = re.compile(r"for\s*\(\s*int\s+(\w+)\s*=\s*([01])\s*;\s*(\w+)\s*<\s*(\w+)\s*;\s*(\w+)\+\+\s*\)\s*\{")
 IF = re.compile(r"if\s*\(\s*(\w+)\s*==\s*1\s*\)\s*\{")
 BITEXPR = re.compile(r"(\w+)\s*=\s*\(\s*(\w+)\[(\w+)\]\s*>>\s*(\w+)\s*\)\s*&\s*1$")
 
@@ -36,9 +36,9 @@ def parse_block(s, name):
                 j += 1
             body = parse_block(s[m.end():j - 1], name)
             if m.re is FOR:
-                if not (m.group(1) == m.group(2) == m.group(4)):
+                if not (m.group(1) == m.group(3) == m.group(5)):
                     raise TranslateError("%s: loop header %r" % (name, m.group(0)))
-                out.append(("for", m.group(1), m.group(3), body))
+                out.append(("for" if m.group(2) == "0" else "for1", m.group(1), m.group(4), body))
             else:
                 out.append(("if", m.group(1), body))
             i = j
@@ -172,6 +172,8 @@ class Fn:
                 lines.append("let %s := if %s = 1 then %s else %s" % (n, self.val(env, c), inner, self.val(env, ws[0])))
                 env[ws[0]] = n
             else:
+                if st[0] != "for":
+                    raise TranslateError("%s: loop start" % self.name)
                 _, v, bound, body = st
                 if bound == "RADIX":
                     b = str(self.radix)
@@ -215,6 +217,120 @@ class Fn:
         return "\n\n".join(self.defs + [main])
 
 
+# ---- fp2_batched_inv: arrays as lists (List.set / List.getD), every loop body a separate step definition -------------------------
+BI_ARR, BI_Z, BI_SC = ["x", "t1", "t2"], ["z"], ["inverse", "one", "zero"]
+BI_ALL = BI_ARR + BI_Z + BI_SC
+BI_CALLS = {"fp2_mul": 2, "fp2_copy": 1, "fp2_inv": 0, "fp2_set_one": 0, "fp2_set_zero": 0, "fp2_select": 3}
+IDX = re.compile(r"(?:\w+)(?:\s*-\s*\w+)*$")
+
+
+def bi_ty(v):
+    return "List (Fp2 α)" if v in BI_ARR else "List Nat" if v in BI_Z else "Fp2 α"
+
+
+def bi_translate(name, params, body):
+    if [p.strip() for p in params.split(",")] != ["fp2_t *x", "int len"]:
+        raise TranslateError("%s: parameters %r" % (name, params))
+    stmts = parse_block(body, name)
+    decls = [s[1] for s in stmts if s[0] == "simple" and re.match(r"(fp2_t|uint32_t)\s", s[1])]
+    if decls != ["fp2_t t1[len], t2[len]", "fp2_t inverse", "fp2_t one, zero", "uint32_t z[len]"]:
+        raise TranslateError("%s: declarations %r" % (name, decls))
+    stmts = [s for s in stmts if not (s[0] == "simple" and s[1] in decls)]
+    defs, cnt, nloop = [], {}, [0]
+
+    def idx(e, ivars):
+        e = " ".join(e.split())
+        if not IDX.match(e) or any(not (t.isdigit() or t == "len" or t in ivars) for t in re.findall(r"\w+", e)):
+            raise TranslateError("%s: index %r" % (name, e))
+        return e
+
+    def place(a, ivars):
+        a = a.strip()
+        m = re.match(r"&(\w+)\[(.*)\]$", a)
+        if m and m.group(1) in BI_ARR:
+            return (m.group(1), idx(m.group(2), ivars))
+        m = re.match(r"&(\w+)$", a)
+        if m and m.group(1) in BI_SC:
+            return (m.group(1), None)
+        raise TranslateError("%s: argument %r" % (name, a))
+
+    def rd(env, pl):
+        return env[pl[0]] if pl[1] is None else "(%s.getD (%s) junk)" % (env[pl[0]], pl[1])
+
+    def wr(env, lines, v, i, val):
+        cnt[v] = cnt.get(v, 0) + 1
+        n = "%s_%d" % (v, cnt[v])
+        lines.append("let %s := %s" % (n, val if i is None else "%s.set (%s) (%s)" % (env[v], i, val)))
+        env[v] = n
+
+    def written(ss):
+        r = []
+        for st in ss:
+            if st[0] != "simple":
+                raise TranslateError("%s: nested control flow" % name)
+            m = re.match(r"(\w+)\[[^\]]*\]\s*=", st[1]) or re.match(r"\w+\(\s*&(\w+)", st[1])
+            if not m:
+                raise TranslateError("%s: statement %r" % (name, st[1]))
+            if m.group(1) not in r:
+                r.append(m.group(1))
+        return r
+
+    def simple(t, env, lines, ivars):
+        m = re.match(r"z\[(.*?)\]\s*=\s*fp2_is_zero\((.*)\)$", t)
+        if m:
+            wr(env, lines, "z", idx(m.group(1), ivars), "Fp2Ref.fp2_is_zero O %s" % rd(env, place(m.group(2), ivars)))
+            return
+        m = re.match(r"(\w+)\((.*)\)$", t)
+        if not m or m.group(1) not in BI_CALLS:
+            raise TranslateError("%s: statement %r" % (name, t))
+        args = split_args(m.group(2))
+        if len(args) != BI_CALLS[m.group(1)] + 1:
+            raise TranslateError("%s: arity in %r" % (name, t))
+        d = place(args[0], ivars)
+        if m.group(1) != "fp2_select":
+            ins = [rd(env, place(a, ivars)) for a in args[1:]]
+        else:
+            mz = re.match(r"\s*z\[(.*)\]$", args[3])
+            if not mz:
+                raise TranslateError("%s: select control %r" % (name, args[3]))
+            ins = [rd(env, place(a, ivars)) for a in args[1:3]] + ["(%s.getD (%s) 0)" % (env["z"], idx(mz.group(1), ivars))]
+        wr(env, lines, d[0], d[1], "Fp2Ref.%s O %s %s" % (m.group(1), rd(env, d), " ".join(ins)))
+
+    env = {v: (v if v == "x" else v + "_uninit") for v in BI_ALL}
+    lines = []
+    for st in stmts:
+        if st[0] == "simple":
+            simple(st[1], env, lines, [])
+        elif st[0] in ("for", "for1"):
+            _, v, bound, body = st
+            if bound != "len":
+                raise TranslateError("%s: loop bound %r" % (name, bound))
+            ws = written(body)
+            ctx = [c for c in BI_ALL if c not in ws]
+            nloop[0] += 1
+            lname = "%s_loop_%d" % (name, nloop[0])
+            env2, l2 = {c: c for c in BI_ALL}, []
+            for k, w in enumerate(ws):
+                l2.append("let %s := %s" % (w, proj("s", k, len(ws))))
+            for b in body:
+                simple(b[1], env2, l2, [v])
+            sty = " × ".join(bi_ty(w) for w in ws)
+            defs.append("\n".join(["def %s (O : FpOps α) (junk : Fp2 α) (len : Nat) %s (s : %s) (%s : Nat) : %s :=" %
+                                   (lname, " ".join("(%s : %s)" % (c, bi_ty(c)) for c in ctx), sty, v, sty)] +
+                                  ["  " + l for l in l2] + ["  " + tup([env2[w] for w in ws])]))
+            cnt["loop"] = cnt.get("loop", 0) + 1
+            r = "loop_%d" % cnt["loop"]
+            lines.append("let %s := loopAcc %s len (%s O junk len %s) %s" % (r, "0" if st[0] == "for" else "1", lname,
+                                                                             " ".join(env[c] for c in ctx), tup([env[w] for w in ws])))
+            for k, w in enumerate(ws):
+                wr(env, lines, w, None, proj(r, k, len(ws)))
+        else:
+            raise TranslateError("%s: control flow" % name)
+    sig = "(junk : Fp2 α) (x : List (Fp2 α)) (len : Nat) " + " ".join("(%s_uninit : %s)" % (v, bi_ty(v)) for v in BI_ALL if v != "x")
+    main = "\n".join(["def %s (O : FpOps α) %s : List (Fp2 α) :=" % (name, sig)] + ["  " + l for l in lines] + ["  " + env["x"]])
+    return "\n\n".join(defs + [main])
+
+
 def gen(repo):
     fns = split_functions(open(os.path.join(repo, "src", "gf", "ref", "gfx", "fp2.c")).read())
     tutil = open(os.path.join(repo, "src", "common", "generic", "include", "tutil.h")).read()
@@ -229,6 +345,10 @@ def gen(repo):
             raise TranslateError("fp2.c: %s missing" % f)
         out.append(Fn(f, fns[f][1], fns[f][2], 64).emit())
         out.append("")
+    if "fp2_batched_inv" not in fns:
+        raise TranslateError("fp2.c: fp2_batched_inv missing")
+    out.append(bi_translate("fp2_batched_inv", fns["fp2_batched_inv"][1], fns["fp2_batched_inv"][2]))
+    out.append("")
     out.append("end SqiGen.Fp2Loops")
     return "\n".join(out) + "\n"
 
